@@ -102,20 +102,32 @@ def migrateLoop : Nat → Sk α → Draws α → Option (Sk α × Draws α)
       | none => none
     else some (s, ds)
 
+/-- `get_tau() == 0.0` (false for the NaN of exact mode) -/
+def tauIsZero (s : Sk α) : Bool :=
+  match s.tau with
+  | some t => Num.eq t (Num.zero : α)
+  | none => false
+
+/-- second half of `migrate_marked_items_by_decreasing_k`: k now equals the number of samples, so reducing k
+    increases tau; keep reducing until all marked items have been absorbed into the reservoir, then strip the marks -/
+def migrateFrom (g1 : Sk α) (ds : Draws α) : Option (Sk α × Draws α) :=
+  match decreaseKBy1 g1 ds with
+  | none => none
+  | some (g2, ds2) =>
+    if tauIsZero g2 then none else
+    match migrateLoop g2.k g2 ds2 with
+    | none => none
+    | some (g3, ds3) => some ({ g3 with gadget := false, numMarksInH := 0,
+                                        H := g3.H.map (fun e => { e with mark := false }) }, ds3)
+
 /-- `migrate_marked_items_by_decreasing_k` -/
 def migrateMarked (gcopy : Sk α) (ds : Draws α) : Option (Sk α × Draws α) :=
   if gcopy.numMarksInH == 0 then none
   else if gcopy.R.length != 0 && gcopy.H.length + gcopy.R.length != gcopy.k then none
-  else
-    let g1 := if gcopy.R.length == 0 && gcopy.H.length < gcopy.k then { gcopy with k := gcopy.H.length } else gcopy
-    match decreaseKBy1 g1 ds with
-    | none => none
-    | some (g2, ds2) =>
-      if (match g2.tau with | some t => Num.eq t (Num.zero : α) | none => false) then none else
-      match migrateLoop g2.k g2 ds2 with
-      | none => none
-      | some (g3, ds3) => some ({ g3 with gadget := false, numMarksInH := 0,
-                                          H := g3.H.map (fun e => { e with mark := false }) }, ds3)
+  else if gcopy.R.length == 0 && gcopy.H.length < gcopy.k then
+    -- non-full and pseudo-exact: change k so that the copy is full
+    migrateFrom { gcopy with k := gcopy.H.length } ds
+  else migrateFrom gcopy ds
 
 /-- `get_result()` -/
 def Un.getResult (T : Tunables) (u : Un α) (ds : Draws α) : Option (Sk α × Draws α) :=
